@@ -174,15 +174,6 @@ theorem doInvoke_ok (vs : Variants) (env : Env) (rk : String → Nat) (cfg : Cfg
 
 /-! ## the proxy's reading of the response -/
 
-theorem oldOKs_append (env : Env) : ∀ (fs1 fs2 : List Field) (o1 o2 : List Val),
-    OldOKs env fs1 o1 → OldOKs env fs2 o2 → OldOKs env (fs1 ++ fs2) (o1 ++ o2)
-  | [], _, [], _, _, h2 => by simpa using h2
-  | [], _, _ :: _, _, h1, _ => by simp [OldOKs] at h1
-  | _ :: _, _, [], _, h1, _ => by simp [OldOKs] at h1
-  | f :: fs1, fs2, o :: o1, o2, h1, h2 => by
-    simp only [OldOKs, List.cons_append] at h1 ⊢
-    exact ⟨h1.1, oldOKs_append env fs1 fs2 o1 o2 h1.2 h2⟩
-
 theorem proxyFinish_ok (v : Variant) (env : Env) (rk : String → Nat) (hE : EnvWF env rk) (sig : Sig)
     (args : List Val) (opts : List (Option StrMap)) (resp : RspPacket) (ret : Option Val)
     (outs : List Val)
@@ -192,7 +183,7 @@ theorem proxyFinish_ok (v : Variant) (env : Env) (rk : String → Nat) (hE : Env
     (hn : sig.params.length + cpArgTagOffset ≤ 256)
     (hty : ∀ p ∈ sig.params, TyOK env rk (env.length + 1) p.ty)
     (hretTy : ∀ t, sig.ret = some t → TyOK env rk (env.length + 1) t)
-    (hfresh : OutsFresh env sig args) :
+    (houts : WTm env (outFields sig) (outVals sig.params args)) :
     proxyFinish v env sig args opts resp =
       match copyBackAll v opts resp.context resp.status with
       | .error site => .panicked site
@@ -210,13 +201,14 @@ theorem proxyFinish_ok (v : Variant) (env : Env) (rk : String → Nat) (hE : Env
         subst hf
         exact ⟨by simp only [cpRetTag]; decide, rfl, rfl, hretTy t hsr⟩
     · exact hout f hf
-  have holds : OldOKs env (rspFields sig) ((sig.ret.map (zeroOf env)).toList ++ outVals sig.params args) := by
-    apply oldOKs_append _ _ _ _ _ _ hfresh
+  have holds : ArgOlds env (rspFields sig) ((sig.ret.map (zeroOf env)).toList ++ outVals sig.params args) := by
+    apply argOlds_append _ _ _ _ _ _ (argOlds_of_WTm env _ _ houts)
     unfold retFields
     cases hsr : sig.ret with
-    | none => simp [OldOKs]
-    | some t => simp only [Option.map_some, Option.toList_some, OldOKs, OldOK, and_true]
-                exact zeroOf_ready hE t (hretTy t hsr)
+    | none => simp [ArgOlds]
+    | some t =>
+      simp only [Option.map_some, Option.toList_some, ArgOlds, ArgOld, OldOK, and_true]
+      exact .inl (zeroOf_ready hE t (hretTy t hsr))
   have hreq : ∀ f ∈ rspFields sig, f.req = true := fun f hf => (hfields f hf).2.1
   have hfuel := needElems_le_argFuel env (rspFields sig) (ret.toList ++ outs)
     (Reader.mk0 (encMembers env (rspFields sig) (ret.toList ++ outs))) [] hreq hwt (mk0_rest _)
